@@ -45,6 +45,11 @@ Theorem C01_checker_sound : forall input output, equivb input output = true -> e
 Proof. exact equivb_sound. Qed.
 Print Assumptions C01_checker_sound.
 
+(* ... and nothing more: it accepts exactly the equivalent pairs (a round trip satisfying the property is never rejected) *)
+Theorem C01_checker_complete : forall input output, equiv input output -> equivb input output = true.
+Proof. exact equivb_complete. Qed.
+Print Assumptions C01_checker_complete.
+
 Example C01_example :
   let rows := [(([1], VStr [7]), 3); (([2], VInt 5), 1); (([1], VStr [7]), 1); (([1], VStr [7]), 65535)] in
   attrs_dec 65536 (attrs_enc 65536 rows) = rows /\ map snd (attrs_enc 65536 rows) = [3; 1; 1; 65534].
